@@ -33,6 +33,23 @@ class IndexVariable(VariableBehavior):
         super().__init__(optic, surface_number, apply_scaling, **kwargs)
         self.wavelength = wavelength
 
+        # media present when the variable is created, restored by reset()
+        surfaces = self._surfaces.surfaces
+        self._initial_materials = (
+            surfaces[surface_number].material_post,
+            surfaces[surface_number + 1].material_pre)
+
+    def reset(self):
+        """
+        Restores the media present when the variable was created (a catalogue
+        glass keeps its dispersion instead of becoming a constant index).
+        """
+        surfaces = self._surfaces.surfaces
+        surfaces[self.surface_number].material_post = \
+            self._initial_materials[0]
+        surfaces[self.surface_number + 1].material_pre = \
+            self._initial_materials[1]
+
     def get_value(self):
         """
         Returns the value of the index of refraction at the specified surface
